@@ -17,6 +17,7 @@ import (
 	"sync"
 	"syscall"
 	"time"
+	"unsafe"
 
 	"github.com/deadsy/sdfx/render"
 	"github.com/deadsy/sdfx/sdf"
@@ -88,6 +89,44 @@ func (s scriptNaN2) Render(_ sdf.SDF2, out sdf.Line2Writer) {
 	out.Close()
 }
 
+// scripted renderers that put several parts into one output: after each part the writer is Closed (as every stock renderer
+// does at the end of its Render), then the next part is written through the same writer.
+type scriptParts3 struct{ n, b int }
+
+func (s scriptParts3) Info(sdf.SDF3) string { return fmt.Sprintf("scripted-parts %d", s.n) }
+func (s scriptParts3) Render(_ sdf.SDF3, out sdf.Triangle3Writer) {
+	for i := 0; i < s.n; i += s.b {
+		var ts []*sdf.Triangle3
+		for j := i; j < i+s.b && j < s.n; j++ {
+			f := float64(j)
+			ts = append(ts, &sdf.Triangle3{{X: f}, {X: f, Y: 1}, {X: f, Z: 1}})
+		}
+		out.Write(ts)
+		if (i/s.b)%3 == 2 {
+			out.Close()
+		}
+	}
+	out.Close()
+}
+
+type scriptParts2 struct{ n, b int }
+
+func (s scriptParts2) Info(sdf.SDF2) string { return fmt.Sprintf("scripted-parts %d", s.n) }
+func (s scriptParts2) Render(_ sdf.SDF2, out sdf.Line2Writer) {
+	for i := 0; i < s.n; i += s.b {
+		var ls []*sdf.Line2
+		for j := i; j < i+s.b && j < s.n; j++ {
+			f := float64(j)
+			ls = append(ls, &sdf.Line2{{X: f}, {X: f, Y: 1}})
+		}
+		out.Write(ls)
+		if (i/s.b)%3 == 2 {
+			out.Close()
+		}
+	}
+	out.Close()
+}
+
 type scriptR2 struct{ n, b int }
 
 func (s scriptR2) Info(sdf.SDF2) string { return fmt.Sprintf("scripted %d", s.n) }
@@ -124,6 +163,9 @@ func c12Render3(name string, size int) render.Render3 {
 	if name == "scripted-nan" {
 		return scriptNaN3{size, 37}
 	}
+	if name == "scripted-parts" {
+		return scriptParts3{size, 37}
+	}
 	return scriptR3{size, 37}
 }
 
@@ -136,6 +178,9 @@ func c12Render2(name string, size int) render.Render2 {
 	}
 	if name == "scripted-nan" {
 		return scriptNaN2{size, 37}
+	}
+	if name == "scripted-parts" {
+		return scriptParts2{size, 37}
 	}
 	return scriptR2{size, 37}
 }
@@ -158,7 +203,48 @@ func c12Call(sink, rname, path string, size int) {
 // args: sink renderer path size fsizeLimit(-1 none)
 const c12CPULimit = 40
 
+// c12PinToOneCPU: restrict this process to one of its allowed CPUs and re-execute it, so that the Go runtime of the new
+// image starts with NumCPU() == 1 (a single-cpu VM, a cpuset, taskset -c N).
+func c12PinToOneCPU() {
+	var mask [32]uint64
+	if _, _, e := syscall.RawSyscall(syscall.SYS_SCHED_GETAFFINITY, 0, uintptr(len(mask)*8), uintptr(unsafe.Pointer(&mask[0]))); e != 0 {
+		fmt.Println("PIN-FAILED getaffinity", e)
+		os.Exit(4)
+	}
+	var one [32]uint64
+	done := false
+	for i := range mask {
+		for b := 0; b < 64 && !done; b++ {
+			if mask[i]&(1<<uint(b)) != 0 {
+				one[i] = 1 << uint(b)
+				done = true
+			}
+		}
+	}
+	if _, _, e := syscall.RawSyscall(syscall.SYS_SCHED_SETAFFINITY, 0, uintptr(len(one)*8), uintptr(unsafe.Pointer(&one[0]))); e != 0 || !done {
+		fmt.Println("PIN-FAILED setaffinity", e)
+		os.Exit(4)
+	}
+	var env []string
+	for _, kv := range os.Environ() {
+		if !strings.HasPrefix(kv, "C12_PIN=") {
+			env = append(env, kv)
+		}
+	}
+	env = append(env, "C12_PINNED=1")
+	fmt.Println("PINNING")
+	syscall.Exec(os.Args[0], os.Args, env)
+	fmt.Println("PIN-FAILED exec")
+	os.Exit(4)
+}
+
 func childC12Render(args []string) {
+	if os.Getenv("C12_PIN") == "1" {
+		c12PinToOneCPU()
+	}
+	if os.Getenv("C12_PINNED") == "1" {
+		fmt.Println("NUMCPU", runtime.NumCPU())
+	}
 	sink, rname, path := args[0], args[1], args[2]
 	size, _ := strconv.Atoi(args[3])
 	limit, _ := strconv.ParseInt(args[4], 10, 64)
@@ -278,6 +364,7 @@ func checkC12(c *Ctx) {
 		{"dxf", "uniform", 20}, {"dxf", "quadtree", 20}, {"dxf", "scripted", 600},
 		{"svg", "uniform", 20}, {"svg", "quadtree", 20}, {"svg", "scripted", 600},
 		{"stl", "scripted-nan", 900}, {"3mf", "scripted-nan", 900}, {"dxf", "scripted-nan", 900}, {"svg", "scripted-nan", 900},
+		{"stl", "scripted-parts", 1200}, {"3mf", "scripted-parts", 1200}, {"dxf", "scripted-parts", 1200}, {"svg", "scripted-parts", 1200},
 	}
 	var faults []c12Fault
 	for ci, cb := range combos {
@@ -287,6 +374,9 @@ func checkC12(c *Ctx) {
 			if strings.Contains(res.Out, "all goroutines are asleep - deadlock!") {
 				c.Violate("", fmt.Sprintf("render-hangs To%s with %s renderer, no fault at all: the call never returns (deadlock): %s",
 					strings.ToUpper(cb.sink), cb.r, lastLines(trimDump(res.Out), 6)), map[string]any{"combo": fmt.Sprint(cb), "child_output_tail": tailStr(res.Out, 3000)})
+			} else if !res.TimedOut && res.Signaled && res.UserCPU+res.SysCPU >= (c12CPULimit-1)*time.Second {
+				c.Violate("", fmt.Sprintf("render-hangs To%s with %s renderer, no fault at all: the call never returns (spinning): it consumed %d s of CPU and was ended by the CPU limit",
+					strings.ToUpper(cb.sink), cb.r, c12CPULimit), map[string]any{"combo": fmt.Sprint(cb), "child_output_tail": tailStr(res.Out, 3000)})
 			} else {
 				c.Inconclusive(fmt.Sprintf("fault-free control %v did not return: %s", cb, lastLines(res.Out, 5)))
 			}
@@ -312,6 +402,8 @@ func checkC12(c *Ctx) {
 		} {
 			faults = append(faults, c12Fault{cb.sink, cb.r, f.name, cb.size, -1, f.path})
 		}
+		// no fault at all, but the process may use a single CPU only (NumCPU() == 1)
+		faults = append(faults, c12Fault{cb.sink, cb.r, "single-cpu", cb.size, -1, filepath.Join(dir, fmt.Sprintf("pinned-%d.%s", ci, cb.sink))})
 		// file size limits
 		lims := map[int64]bool{}
 		for _, n := range []int64{0, 1, 83, 84, 85, 133, 134, 4095, 4096, 4097, 8192, full / 2, full - 1, full, full + 1000} {
@@ -348,7 +440,20 @@ func checkC12(c *Ctx) {
 	outcomes := map[string]int{}
 	parallelFor(len(faults), func(i int) {
 		f := faults[i]
-		res := runChildPipe("", "c12-render", []string{f.Sink, f.Renderer, f.Path, strconv.Itoa(f.Size), strconv.FormatInt(f.Limit, 10)}, nil, 3*time.Minute)
+		var env []string
+		if f.Fault == "single-cpu" {
+			env = []string{"C12_PIN=1"}
+		}
+		res := runChildPipe("", "c12-render", []string{f.Sink, f.Renderer, f.Path, strconv.Itoa(f.Size), strconv.FormatInt(f.Limit, 10)}, env, 3*time.Minute)
+		if f.Fault == "single-cpu" {
+			switch {
+			case strings.Contains(res.Out, "PIN-FAILED"):
+				c.Count("single_cpu_runs_skipped_affinity_not_settable", 1)
+				return
+			case strings.Contains(res.Out, "NUMCPU 1\n"):
+				c.Count("single_cpu_runs", 1)
+			}
+		}
 		c.Eval(1)
 		if !strings.Contains(f.Fault, "symlink") {
 			os.Remove(f.Path)
@@ -376,7 +481,7 @@ func checkC12(c *Ctx) {
 		mu.Unlock()
 		switch outcome {
 		case "returned":
-			if failed {
+			if failed || f.Fault == "single-cpu" && strings.Contains(res.Out, "NUMCPU 1\n") {
 				c.Distinct(fmt.Sprintf("%s/%s/%s", f.Sink, f.Renderer, f.Fault))
 			} else {
 				c.Count("no_fault_controls_limit_above_file_size", 1)
